@@ -19,6 +19,7 @@ Proof.
       | exists w0, i0, j0; split; [assumption | rewrite upd_other by assumption; assumption] ] end);
     try (match goal with |- context [upd _ ?w _ _] =>
         exists w; eexists _, _; split; [eassumption| rewrite upd_same; reflexivity] end).
+  all: try (exists w0, i0, j0; split; [assumption|]; rewrite Hws0; reflexivity).
   all: fwd_run Hrf; tidy.
   all: try (match goal with Hlt : ?t < ntasks _ |- _ => pose proof (Hsucc eq_refl t Hlt) end; congruence).
 Qed.
@@ -118,7 +119,8 @@ Lemma pres_dead_hold f c (Hok : facts_ok f = true) s a s'
   s_pool s' = PoolOk -> forall w, s_ws s' w <> WDead true.
 Proof.
   grab INV0. clear - Hok STEP0 Hdh Hsucc Hrf.
-  step_cases f Hok STEP0; try assumption; intros Hp w'; norm; try discriminate; auto.
+  step_cases f Hok STEP0; try assumption; intros Hp w'; norm; try discriminate; auto;
+    try apply unhold_not_deadtrue.
   destruct (ws w') as [|t i [r|]|h] eqn:E; cbn; try discriminate.
   - destruct (Hrf _ _ _ _ E) as [A [B|B]]; rewrite (Hsucc eq_refl _ A) in B; discriminate.
   - specialize (Hdh Hp w'). rewrite E in Hdh. destruct h; congruence.
@@ -258,16 +260,43 @@ Proof.
   grab INV0. clear - Hok STEP0 Hmg.
   step_cases f Hok STEP0; try assumption; intros Hp; norm; try discriminate; auto.
 Qed.
+Lemma pres_free_pc f c (Hok : facts_ok f = true) s a s'
+  (INV0 : Inv f c s) (STEP0 : step f c s a = Some s') :
+  forall oe, s_pc s' = MFreeStore oe -> f_fin_free f = true.
+Proof.
+  grab INV0. clear - Hok STEP0 Hfp.
+  step_cases f Hok STEP0; try assumption; intros oe' Hp; norm; try discriminate;
+    try reflexivity; eauto.
+Qed.
 Lemma pres_orphan f c (Hok : facts_ok f = true) s a s'
   (INV0 : Inv f c s) (STEP0 : step f c s a = Some s') :
+  f_fin_free f = false ->
   s_fired s' = true -> forall p r, c_plan c = Some p ->
       p_kind p = KExit -> p_j p = Some r -> exists w, s_ws s' w = WDead true.
 Proof.
-  grab INV0. clear - Hok STEP0 Hor.
-  step_cases f Hok STEP0; try assumption; intros Hp p' r' P1 P2 P3; norm; try discriminate; try congruence;
-   try (destruct (Hor Hp _ _ P1 P2 P3) as [w0 Hw0]; exists w0; upd_cases; rew_ws; try discriminate; try assumption).
+  grab INV0. clear - Hok STEP0 Hor Hfp.
+  step_cases f Hok STEP0; try assumption; intros Hff Hp p' r' P1 P2 P3; norm;
+    try discriminate; try congruence;
+    try (rewrite (Hfp _ eq_refl) in Hff; discriminate);
+    try (destruct (Hor Hff Hp _ _ P1 P2 P3) as [w0 Hw0]; exists w0; upd_cases; rew_ws; try discriminate; try assumption).
   all: try reflexivity; try (destruct (Nat.ltb_spec w0 (c_workers c)); reflexivity).
   all: eexists; rewrite upd_same; reflexivity.
+Qed.
+Lemma pres_freed f c (Hok : facts_ok f = true) s a s'
+  (INV0 : Inv f c s) (STEP0 : step f c s a = Some s') :
+  f_fin_free f = true -> freed_pc (s_pc s') = true ->
+      dead_ownerb s' (s_store s') = false.
+Proof.
+  grab INV0. clear - Hok STEP0 Hfd Had.
+  assert (FP : forall p, freed_pc p = true -> post_pool p = true)
+    by (intros p; destruct p; try destruct ph; intros; try discriminate; reflexivity).
+  step_cases f Hok STEP0; try assumption; intros Hff Hp; norm; try discriminate;
+    try reflexivity; auto.
+  all: try (match goal with
+            | Hw : ?w < c_workers _, He : ?ws ?w = _ |- _ =>
+                pose proof (Had (FP _ Hp) _ Hw) as Q; rewrite He in Q; discriminate
+            end).
+  all: try (specialize (Hfd Hff Hp); unfold dead_ownerb in *; projs; exact Hfd).
 Qed.
 
 (* ------------------------------------------------------- the invariant *)
@@ -309,6 +338,8 @@ Proof.
   - eapply pres_all_dead; eassumption.
   - eapply pres_mgr; eassumption.
   - eapply pres_orphan; eassumption.
+  - eapply pres_freed; eassumption.
+  - eapply pres_free_pc; eassumption.
 Qed.
 
 Lemma step'_inv f c (Hok : facts_ok f = true) s a :
